@@ -23,8 +23,13 @@ use serde_json::{json, Value as J};
 use std::collections::{BTreeMap, HashSet};
 use std::path::Path;
 
-pub const HEADER: &str = "From Coq Require Import List NArith ZArith String.\nFrom V Require Import Base.Util Base.Result Model.Registry Model.Settings Model.Subst Model.Builders Model.RngWords Model.ExampleRust Corr.RunTG Corr.RunC14.\nImport ListNotations. Open Scope string_scope.";
-pub const EVALS: [(&str, &str); 21] = [
+pub const HEADER: &str = "From Coq Require Import List NArith ZArith String.\nFrom V Require Import Base.Util Base.Result Model.Registry Model.Settings Model.Subst Model.Builders Model.RngWords Model.ExampleRust Corr.RunTG Corr.RunC14.\nFrom V Require Proofs.ConformsCase.\nImport ListNotations. Open Scope string_scope.";
+pub const EVALS: [(&str, &str); 24] = [
+    // hypotheses of the pinned theorem C14_prop_conforms_of_corr (Proofs/ConformsCase.v): observed module and
+    // paths equal the model's, reader scope; with corr_example they IMPLY prop_conforms
+    ("corr_module", "V.Proofs.ConformsCase.corr_module"),
+    ("corr_model_paths", "V.Proofs.ConformsCase.corr_model_paths"),
+    ("hyp_reader_scope", "V.Proofs.ConformsCase.hyp_reader_scope"),
     ("known_F14", "known_F14"),
     ("known_F15", "known_F15"),
     ("hyp_ok", "hyp_ok"),
